@@ -13,6 +13,11 @@ double convoluted_blossom(const double *x, size_t nx, const double *y, size_t ny
 template <typename Alloc>
 void splinetable<Alloc>::convolve(const uint32_t dim, const double* conv_knots, size_t n_conv_knots)
 {
+	if(dim>=ndim) //also rejects an empty table
+		throw std::runtime_error("Convolution dimension out of range");
+	if(n_conv_knots<2)
+		throw std::runtime_error("A convolution kernel needs at least two knots");
+	
 	/* Construct the new knot field. */
 	size_t n_rho = 0;
 	const uint32_t convorder = order[dim] + n_conv_knots - 1;
@@ -119,6 +124,7 @@ void splinetable<Alloc>::convolve(const uint32_t dim, const double* conv_knots, 
 	//have to make temporary buffers for it.
 	
 	deallocate(this->coefficients,this->naxes[0]*this->strides[0]);
+	this->coefficients=nullptr;
 	
 	std::unique_ptr<std::unique_ptr<double[]>[]> knots_store(new std::unique_ptr<double[]>[ndim]);
 	for (uint32_t i = 0; i < ndim; i++) {
@@ -128,6 +134,7 @@ void splinetable<Alloc>::convolve(const uint32_t dim, const double* conv_knots, 
 			std::copy(knots[i],knots[i]+nknots[i],knots_store[i].get());
 		}
 		deallocate(knots[i]-order[i],nknots[i]+2*order[i]);
+		knots[i]=nullptr;
 	}
 	
 	this->nknots[dim] = n_rho;
@@ -135,6 +142,7 @@ void splinetable<Alloc>::convolve(const uint32_t dim, const double* conv_knots, 
 	this->naxes[dim] = naxes[dim];
 	std::copy(strides.get(),strides.get()+ndim,this->strides);
 	
+	try{
 	this->coefficients = allocate<float>(arraysize);
 	std::copy(coefficients.get(),coefficients.get()+arraysize,this->coefficients);
 	
@@ -142,6 +150,12 @@ void splinetable<Alloc>::convolve(const uint32_t dim, const double* conv_knots, 
 		knots[i] = allocate<double>(nknots[i]+2*order[i]) + order[i];
 		double* src = (i!=dim ? knots_store[i].get() : rho);
 		std::copy(src,src+nknots[i],&knots[i][0]);
+	}
+	}catch(...){
+		//the old arrays are already released and the new ones cannot be
+		//stored: do not keep pointers to released memory
+		clear();
+		throw;
 	}
 	
 	/*
